@@ -102,7 +102,7 @@ func checkC13() *checkDef {
 }
 
 func allChecks() []*checkDef {
-	return []*checkDef{checkC01(), checkC02(), checkC03(), checkC04(), checkC05(), checkC06(), checkC07(), checkC08(), checkC09(), checkC10(), checkC11(), checkC12(), checkC13(), checkC14(), checkC15(), checkC19()}
+	return []*checkDef{checkC01(), checkC02(), checkC03(), checkC04(), checkC05(), checkC06(), checkC07(), checkC08(), checkC09(), checkC10(), checkC11(), checkC12(), checkC13(), checkC14(), checkC15(), checkC16(), checkC17(), checkC18(), checkC19()}
 }
 
 func freshRuns(tier string) []run {
@@ -367,6 +367,81 @@ func checkC05() *checkDef {
 	}
 }
 
+func checkC16() *checkDef {
+	return &checkDef{
+		ID: "C16", Title: "No input makes the proxy panic or leave a request unanswered", Level: "exploration",
+		Category: "exploration",
+		LevelText: "Grammar-bounded exhaustive enumeration (the part of the quantifier this family reaches; coverage-guided fuzzing is another family and is not run): the range-spec space of C07 (10^7 strings), the byte-size alphabet up to length 5 plus overflow strings, PHC strings by single and pairwise field mutation (part counts 0-8, ids, versions, parameter lists, salt lengths 0-40 bytes, hash lengths, stray separators), CONNECT targets incl. malformed ones through the real server, request-target pairs through the key function, every request/response shape of C08 and C10 and every header class of C03 through the real handler: each parser runs under recover(), each request-shaped class must produce a well-formed response on the wire.",
+		LevelNote: "Trusted: net/http's own request parser rejects some inputs with 400 before the handler runs (that is a well-formed response). Byte sequences outside the enumerated grammars are not covered.",
+		Technique: "bounded-exhaustive grammar enumeration of every parser under recover() and of request/response shapes through the real server stack",
+		DesignRef: "DESIGN.md section 4 C16",
+		Rule:        "all strings of the stated grammars up to the stated lengths; distinct by string; non-trivial = distinct outcome class (accepted/rejected/panic, response class)",
+		Assumptions: seqAssumptions,
+		Runs: func(tier string) []run {
+			ml := 6
+			if tier == "thorough" {
+				ml = 7
+			}
+			return []run{
+				{Pkg: "./proxy/headers", Scenario: "headers/range", Params: map[string]any{"max_len": ml, "sizes": []int{0, 1, 36}}},
+				{Pkg: "./utils/bytesize", Scenario: "bytesize/enum", Params: map[string]any{"max_len": 5, "max_round_trip": 4096}},
+				{Pkg: "./utils/phc", Scenario: "phc/enum", Params: map[string]any{}, Workers: 8},
+				{Pkg: "./proxy", Scenario: "proxy/connect-targets", Params: map[string]any{}},
+				{Pkg: "./proxy", Scenario: "proxy/range", Params: map[string]any{"backend": "memory"}},
+				{Pkg: "./proxy", Scenario: "proxy/relay", Params: map[string]any{"backend": "memory"}},
+				{Pkg: "./proxy", Scenario: "proxy/tunnel", Params: map[string]any{"backend": "memory", "depth": 2}},
+				{Pkg: "./cache", Scenario: "cache/keys", Params: map[string]any{"max_segs": 2}, Workers: 1},
+			}
+		},
+	}
+}
+
+func checkC17() *checkDef {
+	return &checkDef{
+		ID: "C17", Title: "Saved config reads back identically; CLI overrides win but are not saved", Level: "model_checking",
+		LevelText: "Input enumeration: ByteSize round trip Unmarshal(Marshal(b))==b for every b in [0,2^21] plus unit boundaries and 2^n, 2^n+-1 (n<=62); Parse for every string over {0,1,9,B,K,M,G,T,x,-,SP} up to length 5 plus overflow strings against the reference ^[0-9]+[BKMGT]$ with arbitrary-precision arithmetic. Whole configuration: defaults with every property at each of its boundary values (one deviation) and all pairs of properties, persist -> load -> Read() of all 24 properties equal. Histories over {command-line override, API update x2, restart without flags} up to depth 4 for a property with a live listener, one without and a size: Read() yields the command-line value, the listening component is left with the effective value, the file never holds a command-line value and rules after the restart.",
+		LevelNote: "Trusted: reflection-based snapshot of all ConfigProp fields, the in-harness listener standing in for logging (the config package cannot import it). The flag-parsing path itself (global flag.CommandLine) is bound through Overwrite, which is what every flag's OnSet calls.",
+		Technique: "bounded-exhaustive value/string enumeration against reference functions + explicit-state enumeration of override/update/restart histories on the implementation",
+		DesignRef: "DESIGN.md section 4 C17",
+		Rule:        "all listed values, strings, single and pairwise property deviations, and all event histories up to depth 4",
+		Assumptions: seqAssumptions,
+		Runs: func(tier string) []run {
+			rt := 1 << 16
+			if tier == "thorough" {
+				rt = 1 << 21
+			}
+			return []run{
+				{Pkg: "./utils/bytesize", Scenario: "bytesize/enum", Params: map[string]any{"max_len": 5, "max_round_trip": rt}},
+				{Pkg: "./config", Scenario: "config/roundtrip", Params: map[string]any{}},
+				{Pkg: "./config", Scenario: "config/override", Params: map[string]any{"depth": 4}},
+			}
+		},
+	}
+}
+
+func checkC18() *checkDef {
+	return &checkDef{
+		ID: "C18", Title: "Only workable configurations are accepted; a rejected update changes nothing", Level: "model_checking",
+		LevelText: "Explicit-state exploration of update sequences (depth 2, 3 thorough) over 24 update documents (valid, rejected by verification, ill-typed, null, multi-key documents in which a later or earlier key fails; both map iteration orders) with a recording listener on every property: after a rejected update Read() of all 24 properties, the listeners' call logs and the bytes of var/config.json are unchanged and no thread has panicked; after an accepted one exactly the addressed settings changed and the file loads to the same settings. Fault enumeration: the config-file write fails at Create and after every byte count of the file. Suspect values (lock_shards<=0, zero budget, uncreatable cache dir, ...) are judged operationally: if accepted, a cache and proxy are started under them and must serve a request. A cache with its janitor subscribed must survive a rejected interval.",
+		LevelNote: "Trusted: vos seam for the config-file writes, reflection snapshot. Unbindable listen addresses are not judged (no sockets in the closed system).",
+		Technique: "explicit-state enumeration of update-document sequences with a full before/after state comparison + exhaustive write-failure point enumeration + operational acceptance test",
+		DesignRef: "DESIGN.md section 4 C18",
+		Rule:        "all sequences of update documents up to the depth in both key orders; every write-failure byte count; every suspect value",
+		Assumptions: seqAssumptions,
+		Runs: func(tier string) []run {
+			d := 2
+			if tier == "thorough" {
+				d = 3
+			}
+			return []run{
+				{Pkg: "./config", Scenario: "config/update", Params: map[string]any{"depth": d}},
+				{Pkg: "./config", Scenario: "config/persist-faults", Params: map[string]any{}},
+				{Pkg: "./proxy", Scenario: "proxy/config-workable", Params: map[string]any{}, Workers: 4},
+			}
+		},
+	}
+}
+
 type evSched struct {
 	Name     string     `json:"name"`
 	Threads  [][]string `json:"threads"`
@@ -404,6 +479,7 @@ func checkC19() *checkDef {
 			return []run{
 				{Pkg: "./utils/event", Scenario: "event/seq", Params: map[string]int{"listeners": 3, "depth": depth}},
 				{Pkg: "./utils/event", Scenario: "event/sched", Params: sc, K: k, E: 1, F: 2, Horizon: 2000, Workers: 4},
+				{Pkg: "./config", Scenario: "config/listener-sched", Params: map[string]any{}, K: k, E: 1, F: 2, Horizon: 5000, Workers: 4},
 			}
 		},
 	}
